@@ -300,11 +300,22 @@ func (t *tiingoServer) RoundTrip(req *http.Request) (*http.Response, error) {
 		if err != nil {
 			status, body = 400, []byte(`{"detail":"bad startDate"}`)
 		} else if ok {
-			out := []asset.TiingoEndOfDay{}
+			// elements are written member by member; like some providers, the server leaves out
+			// members whose value is zero (no volume on a halted day)
+			out := []map[string]any{}
 			for _, s := range rows {
 				if !s.Date.Before(start) {
-					out = append(out, asset.TiingoEndOfDay{Date: s.Date.UTC(), Open: s.Open, High: s.High, Low: s.Low, Close: s.Close, Volume: int64(s.Volume),
-						AdjOpen: s.Open, AdjHigh: s.High, AdjLow: s.Low, AdjClose: s.Close, AdjVolume: int64(s.Volume), Split: 1})
+					e := asset.TiingoEndOfDay{Date: s.Date.UTC(), Open: s.Open, High: s.High, Low: s.Low, Close: s.Close, Volume: int64(s.Volume),
+						AdjOpen: s.Open, AdjHigh: s.High, AdjLow: s.Low, AdjClose: s.Close, AdjVolume: int64(s.Volume), Split: 1}
+					b, _ := json.Marshal(e)
+					m := map[string]any{}
+					json.Unmarshal(b, &m)
+					for k, v := range m {
+						if f, ok := v.(float64); ok && f == 0 {
+							delete(m, k)
+						}
+					}
+					out = append(out, m)
 				}
 			}
 			status = 200
@@ -594,6 +605,11 @@ func (c12) Run(c *Case, st *Stats) []Violation {
 						st.Faults["source-not-in-date-order"]++
 					}
 					if server != nil {
+						for k, sn := range srcData[a.Name] {
+							if k%3 == 1 {
+								sn.Volume = 0 // a halted day: the provider leaves the volume members out
+							}
+						}
 						server.mu.Lock()
 						server.data[a.Name] = srcData[a.Name]
 						server.mu.Unlock()
